@@ -121,6 +121,11 @@ theorem hnf_canonical (g : List Vec4) (hg : g.length ≤ 8) (hfr : FullRank (spa
     (hspan : spanL m.cols = spanL g) : hnfCore g = m :=
   hnf_unique hm (hnf_is_hnf g hg hfr) (by rw [hnf_span g hg, hspan])
 
+/-- `ibz_mat_4x4_hnf_mod` returns the HNF of the lattice generated by the columns of `m` together with `md·ℤ⁴` -/
+theorem hnf_mod_exact (m : Mat4) (md : ℤ) (hmd : md ≠ 0) :
+    spanL (hnfMod m md).cols = spanL m.cols ⊔ spanL (Mat4.scalarMul md Mat4.identity).cols ∧ IsHNF (hnfMod m md) :=
+  hnfMod_spec m md hmd
+
 /-! ## lattice.c -/
 
 theorem lattice_reduce_denom_exact (l : Lattice) (hd : l.denom ≠ 0) :
